@@ -17,8 +17,8 @@ PIPE_NOTE = ("Trusted: TLC, the flatbuffer object API (synthesis and projection)
              "injected generic statistics.")
 
 CHECKS = {
-    "C01": dict(engine="pipeline", ref="4 C01", text=PIPE_TEXT + " The last sentence of C01 (interpreter allocates and invokes) is an interpreter observation made in a forked child.", note=PIPE_NOTE,
-                tech="TLA+ model checking (TLC) of Pipeline.tla + spec->code replay + TLC evaluation of GraphProps on observed states"),
+    "C01": dict(engine="pipeline", ref="4 C01", text=PIPE_TEXT + " The performer's hook events (one per applied instruction: operator list, outputs, id maps) are validated step by step against PipelineTrace.tla (trace acceptance), so every intermediate state of the rewrite is a state the specification allows. The last sentence of C01 (interpreter allocates and invokes) is an interpreter observation made in a forked child.", note=PIPE_NOTE + " Needs hook AI_EDGE_QUANTIZER_VERIF_TRACE (H2) for the step-level validation.",
+                tech="TLA+ model checking (TLC) of Pipeline.tla + spec->code replay + step-level trace validation (PipelineTrace.tla) + TLC evaluation of GraphProps on observed states"),
     "C02": dict(engine="pipeline", ref="4 C02", text=PIPE_TEXT, note=PIPE_NOTE + " Known finding F7 (output renamed by an inserted Q/DQ) is excused clause-precisely by GraphProps!KF7.",
                 tech="TLA+ model checking (TLC) of Pipeline.tla + spec->code replay + TLC evaluation of GraphProps!Skeleton on observed states"),
     "C03": dict(engine="pipeline", ref="4 C03", text=PIPE_TEXT, note=PIPE_NOTE,
@@ -38,23 +38,23 @@ CHECKS = {
                 tech="TLA+ model checking (TLC) of the structural half + reference-model execution comparison (translation validation)"),
     "C08": dict(engine="pipeline", ref="4 C08", text="TLC explores Pipeline.tla under the mode map each of the 5 shipped recipes induces (read from the implementation's resolution of the unchanged JSON) and reports every may-raise terminal state; every enumerated graph and seeded random larger graphs are then run through the real API with the unchanged JSON recipe and real calibrate(); the observed return/raise decides.",
                 note=PIPE_NOTE + " Known finding F20.", tech="TLA+ model checking (TLC) of Pipeline.tla (NeverRaises) + spec->code replay with the shipped recipe files"),
-    "C11": dict(engine="recipe", ref="4 C11", text="Recipe.tla is the documented resolution model; TLC checks its structural invariants and action properties on every reachable store and emits every (store, letter) transition with the predicted accept/refuse, export and resolution table; each transition is replayed on a real RecipeManager and compared at every (operator, scope) pair; longer histories by TLC simulation.",
+    "C11": dict(engine="recipe", ref="4 C11", text="Recipe.tla is the documented resolution model; TLC checks its structural invariants and action properties on every reachable store and emits every (store, letter) transition with the predicted accept/refuse, export and resolution table; each transition is replayed on a real RecipeManager (whole history on a fresh object, the resolution table read after every step, algorithm keys alternately as enum members and strings) and compared at every (operator, scope) pair; longer histories by TLC simulation.",
                 note="Regex semantics are Python's re.search and the support table is read from the implementation (Matches/Supported are constants). Alphabet: 3 regexes x 3 selectors x 8 (config, algorithm) pairs; exhaustive to history length 2 (quick) / 3 (thorough), simulated to 10.",
                 tech="TLA+ model checking (TLC) of Recipe.tla + transition-by-transition spec->code replay"),
     "C12": dict(engine="recipe", ref="4 C12", text="TLC checks RoundTrip (Load(Export(store)) = store) on every reachable store of Recipe.tla; for every emitted transition the real recipe is JSON round-tripped into a fresh manager and compared (recipe, resolution); sampled stores are quantized with the original and the reloaded recipe and compared byte for byte; every shipped recipe file is loaded and the default ones re-exported.",
                 note="Same alphabet and bounds as C11; byte identity on one 3-operator model with injected statistics.",
                 tech="TLA+ model checking (TLC) of Recipe.tla (RoundTrip) + spec->code replay"),
     "C09": dict(engine="calib", ref="4 C09", text="Calib.tla models Quantizer.calibrate() over resumed sessions with statistics kept symbolically as the sequence of folded sample ids; TLC checks ExactFold, Resumes, PrevUntouched and OnlySelected for every selection of operators, every split of the dataset into sessions and every choice of the result to resume from; every complete behaviour is replayed through the real calibrate() and each returned result must equal the moving average of the true per-sample min/max (harness's own interpreter) folded in the predicted order; previous results are compared before/after.",
-                note="3 model shapes (chain, fc+add with a tensor mentioned twice, two inputs/two outputs), datasets of 3 (quick) / 4 (thorough) samples, up to 2 / 3 sessions. float32 moving average, tolerance 1e-5; samples scaled so that one dropped/duplicated/reordered sample moves the result far beyond it.",
+                note="4 model shapes (chain, fc+add with a tensor mentioned twice, two inputs/two outputs, two signatures calibrated one at a time), sessions on empty datasets included, datasets of 3 (quick) / 4 (thorough) samples, up to 2 / 3 sessions. float32 moving average, tolerance 1e-5; samples scaled so that one dropped/duplicated/reordered sample moves the result far beyond it.",
                 tech="TLA+ model checking (TLC) of Calib.tla + behaviour-by-behaviour spec->code replay with numeric comparison"),
     "C10": dict(engine="recipe", ref="4 C10", text="The scope strings the calibrator and the params generator compute for every operator of real models (converter-style names, one and two signatures) enter Recipe.tla as ScopePairs; TLC checks ScopesMatchAlike and SelectionAgrees over the stores reachable with ~45 regex patterns; then for every (model, regex, selector, config) the real calibrate() -> quantize() is run: never missing statistics, operators calibrated = operators quantised = operators the documented resolution selects on the quantization scope, per signature.",
                 note="Regex semantics are Python's re.search; scope strings read from the components' own _get_op_scope. Single-rule recipes (histories of length 1-2).",
                 tech="TLA+ model checking (TLC) of Recipe.tla (SelectionAgrees) + end-to-end spec->code replay"),
-    "C13": dict(engine="policy", ref="4 C13", text="The full lattice (480 configs x 2 algorithms x 24 operator selectors) is enumerated against the real API; for every point the protocol events (construct / update / resolve under '*' / quantize / prepare / sane) are recorded and validated by TLC against Policy.tla (trace acceptance), which evaluates the C13 invariants on every observed trace: only ValueError, refusal leaves the store unchanged, '*' always accepts and skips unsupported pairs leaving the operator untouched, no accepted point fails later. 'Runtime-sound' is an interpreter observation on a single-operator model calibrated and evaluated on the same inputs.",
+    "C13": dict(engine="policy", ref="4 C13", text="The full lattice (480 configs x 2 algorithms x 24 operator selectors) is enumerated against the real API; for every point the protocol events (construct / update / resolve under '*' / quantize / prepare / sane) are recorded and validated by TLC against Policy.tla (trace acceptance), which evaluates the C13 invariants on every observed trace: only ValueError, refusal leaves the store unchanged, '*' always accepts and skips unsupported pairs leaving the operator untouched, no accepted point fails later, and '*' applies a config to an operator exactly when an update naming the operator accepts it (StarConsistent) - also on a Quantizer whose '*' rule was replaced at every earlier lattice point. 'Runtime-sound' is an interpreter observation on a single-operator model calibrated and evaluated on the same inputs.",
                 note="Soundness threshold: relative RMS error < 0.12 of the float output range (measured gap: sound <= 0.04, unsound >= 0.2). Known findings F15, F17.",
                 tech="TLA+ trace validation (TLC) of observed protocol traces against Policy.tla over the exhaustively enumerated lattice"),
-    "C14": dict(engine="api", ref="4 C14", text="Api.tla models call histories on two Quantizers sharing caller-owned calibration results (value terms, with the set of recipes that wrote into them); TLC checks ArgsUntouched and OutputIsFunction over all interleavings of load/calibrate/quantize/validate up to the bound; every emitted transition is executed on real objects: after every call all caller-owned objects are compared with deep-equality snapshots, outcomes are compared with the prediction, quantize() bytes are compared with a fresh Quantizer given equal arguments; a sample is re-run in fresh processes under PYTHONHASHSEED 0/1/random.",
-                note="One 4-operator model (FC, TANH, RESHAPE, ADD), 3 recipes chosen so that statistics side effects matter, 2 datasets, <= 2 calibration results, histories to length 4 (quick) / 5 (thorough).",
+    "C14": dict(engine="api", ref="4 C14", text="Api.tla models call histories on two Quantizers sharing caller-owned calibration results (value terms, with the set of recipes that wrote into them); TLC checks ArgsUntouched and OutputIsFunction over all interleavings of load/load_config_policy/calibrate/quantize/validate up to the bound (the outcome of the last call that raised is part of the explored state, so continuations after a failed call are explored too); every emitted transition is executed on real objects: after every call all caller-owned objects are compared with deep-equality snapshots, the outcome of every call is compared with the prediction, quantize() bytes are compared with a fresh Quantizer given equal arguments; a sample is re-run in fresh processes under PYTHONHASHSEED 0/1/random.",
+                note="One 4-operator model (FC, TANH, RESHAPE, ADD), 3 recipes chosen so that statistics side effects matter, 2 datasets, <= 2 calibration results, histories to length 4 (quick) / 5 (thorough) on two Quantizers with two policies, 7 / 8 on one Quantizer.",
                 tech="TLA+ model checking (TLC) of Api.tla + transition replay on real objects with snapshots and fresh-object/fresh-process references"),
     "C16": dict(engine="serialize", ref="4 C16", text="Serialize.tla models the two-pass layout of _serialize_large_model (header of the final pass may shrink when a scalar field becomes default-valued); TLC checks Aligned/InBounds/Disjoint/PointsAtData; quantized models and synthetic layouts are serialised by both paths through the public quantize() (hook lowers the threshold) and the raw (offset,size,total) read with Model.GetRootAs are judged by TLC (ObservedSerialize.tla) together with byte-selection, field-equality and interpreter-equality observations.",
                 note="Needs hook AI_EDGE_QUANTIZER_VERIF_LARGE_MODEL_THRESHOLD. 3-4 buffers, sizes {none,0,1,15,16,17,33}, 32 header residues at design level; 224-640 synthetic layouts + random quantized models observed.",
